@@ -110,9 +110,11 @@ def _dataclass_parameters(class_: Class) -> list[Parameter]:
                 continue
 
             # Determine parameter kind.
+            # A field-level `kw_only` argument takes precedence over the class-level flag and the `KW_ONLY` sentinel.
+            field_kw_only = field_args.get("kw_only")
             kind = (
                 ParameterKind.keyword_only
-                if kw_only or field_args.get("kw_only") == "True"
+                if (kw_only and field_kw_only != "False") or field_kw_only == "True"
                 else ParameterKind.positional_or_keyword
             )
 
